@@ -101,7 +101,10 @@ impl From<Evaluated<'_>> for Value {
 }
 
 pub fn to_number_value(number: f64) -> Result<Value, Error> {
-    if number.fract() == 0.0 {
+    // Only spell the result as an integer when it fits one: `as i64`
+    // saturates, which would silently turn e.g. 1e300 into i64::MAX.
+    // (-2^63 and 2^63 are exactly representable, so the bounds are exact.)
+    if number.fract() == 0.0 && number >= i64::MIN as f64 && number < i64::MAX as f64 {
         Ok(Value::Number(Number::from(number as i64)))
     } else {
         Number::from_f64(number)
